@@ -341,10 +341,12 @@ theorem removeModule_ok (cfg : Cfg) {B} (hB : Tag cfg B) {fwd : Fwd} (hf : FwdOK
   · rename_i m hm
     dsimp only
     have h3 := removePrep_ok B s u m hfail
-    have h4 := hf (removePrep s u m) (closedFrame cfg { m with connected := false }) (by simp [closedFrame, mgrFrame, hB.1])
-    have hf4 : failOf (fwd (removePrep s u m) (closedFrame cfg { m with connected := false })) u ≠ none := by
-      rw [failOf_congr (h3.1.trans h4.1).fail]; exact hfail
-    exact ⟨(h3.1.trans h4.1).trans (pres_dropMod _ u hf4), (h3.2.trans h4.2).trans rfl⟩
+    have hl := logAt_ok cfg hB hf 10 (removePrep s u m)
+    have h4 := hf (logAt cfg fwd 10 (removePrep s u m)) (closedFrame cfg { m with connected := false })
+      (by simp [closedFrame, mgrFrame, hB.1])
+    have hf4 : failOf (fwd (logAt cfg fwd 10 (removePrep s u m)) (closedFrame cfg { m with connected := false })) u ≠ none := by
+      rw [failOf_congr ((h3.1.trans hl.1).trans h4.1).fail]; exact hfail
+    exact ⟨((h3.1.trans hl.1).trans h4.1).trans (pres_dropMod _ u hf4), ((h3.2.trans hl.2).trans h4.2).trans rfl⟩
 
 /-- removing any module (failing or not) writes no `B`-frame -/
 theorem removeModule_quiet (cfg : Cfg) {B} (hB : Tag cfg B) {fwd : Fwd} (hf : FwdOK B fwd) (s : State) (u : Nat) :
@@ -354,10 +356,12 @@ theorem removeModule_quiet (cfg : Cfg) {B} (hB : Tag cfg B) {fwd : Fwd} (hf : Fw
   · exact Quiet.refl B s
   · rename_i m hm
     dsimp only
-    have h4 := (hf (removePrep s u m) (closedFrame cfg { m with connected := false }) (by simp [closedFrame, mgrFrame, hB.1])).2
+    have hl := (logAt_ok cfg hB hf 10 (removePrep s u m)).2
+    have h4 := (hf (logAt cfg fwd 10 (removePrep s u m)) (closedFrame cfg { m with connected := false })
+      (by simp [closedFrame, mgrFrame, hB.1])).2
     have h3 : Quiet B s (removePrep s u m) := by
       unfold removePrep Quiet; dsimp only; split <;> simp [dataSends]
-    exact (h3.trans h4).trans rfl
+    exact ((h3.trans hl).trans h4).trans rfl
 
 /-- `trySend`: `Pres`, and exactly one `B`-frame iff the recipient can take it -/
 theorem trySend_ok (cfg : Cfg) {B} (hB : Tag cfg B) {fwd : Fwd} (hf : FwdOK B fwd) (s : State) (u : Nat) (f : Frame) :
